@@ -40,5 +40,23 @@ PROPS["C03"] = monitored("C03", "Spec.coverage", "Every root of every generated 
 PROPS["C05"] = monitored("C05", "Spec.grammar", "Every root (in-memory and streaming+Extract+Rewrite) is checked by Spec.grammar: child kinds per node kind, marker-first list items, definition layout, link tails, no link in link, no unparsed node, heading levels, list/item agreement, ordered item numbers, reference links without destination/title.")
 PROPS["C13"] = monitored("C13", "Spec.shapes", "Every node's source slice is checked against the shape of its construct by Spec.shapes (emphasis, strong, code span, link, image, autolink, HTML tag, character reference, hard break, list marker, ATX, setext, fenced code, block quote).")
 
+DIFF_NOTE = "No theorem about the parser model backs this property yet (the block/inline parser model is not in Lean at this commit): the check compares the implementation with itself on related inputs exactly as the property states (a relational oracle), over corpus + seeded generators + exhaustive small scope, with shrinking. That is a search for counter-examples, not a proof; it is claimed as 'other'."
+
+def differential(pid, what):
+    return {
+        "modules": [],
+        "level": "other",
+        "design_ref": "DESIGN.md §6 " + pid,
+        "technique": "relational oracle on the implementation (the property's own equation evaluated on generated inputs), corpus + seeded generators + exhaustive small scope, shrinking, known-findings filter",
+        "text": what + " " + DIFF_NOTE,
+        "note": "Trusts the harness (generators, canonical tree serialisation, comparison) and the generators' reach (distribution recorded in the evidence).",
+    }
+
+PROPS["C04"] = differential("C04", "Every generated input goes through Parse, NewBlockParser+Extract+Rewrite, Render (SoftBreak x IgnoreRaw x FilterTag), Format and Walk under recover and a 20 s watchdog; any panic, hang or error other than end of input is a violation. Includes all truncations of corpus documents, exhaustive short strings over construct-opening characters and nesting to depth 2,000 (quick) / 20,000 (thorough).")
+PROPS["C08"] = differential("C08", "Every generated input is read through NewBlockParser under whole/1-byte/random/empty-read/data-with-EOF schedules and every 2-cut partition (short inputs), and compared with Parse on offsets, lines, Source, trees after Extract+Rewrite and the reference map; reader failures after k bytes are compared with Parse of the first k bytes; end-of-input and errors must be persistent.")
+PROPS["C09"] = differential("C09", "Tab-free documents are compared with their block-quoted form and (when eligible) their list-item form for 8 markers x N in 1..4, on the safe-mode rendering of each contained block rendered standalone.")
+PROPS["C14"] = differential("C14", "(a) CR-free documents vs their CRLF and CR forms on the rendering with copied line endings mapped back; (b) blank-line prefixes shift offsets and lines by exactly the prefix and change nothing else; (c) appending a final newline does not change the safe-mode rendering (modulo whitespace before a closing block tag).")
+PROPS["C16"] = differential("C16", "Every root block's Source is re-parsed alone with the document's reference map and must give one root with an identical tree; the stated exception (paragraph after a split-off definition) is skipped, the analogous setext-heading class is a listed known finding.")
+
 NOT_APPLICABLE = {
 }
